@@ -61,6 +61,10 @@ def streams(seed, tier):
             for a in F32 + small + [rand_f32(rng) for _ in range(nrand)]:
                 cases.append(mk(prof, nm, prof == 0, float=[a]))
             cases.append(mk(prof, nm, False))
+    # FLOAT.EXP where the result is about to overflow / has become subnormal (a detour through f64 rounds differently there)
+    for k in range({"quick": 3000, "thorough": 20000, "search": 8000}[tier]):
+        x = rng.uniform(80.0, 104.0) * rng.choice([1, -1, -1])
+        cases.append(mk(k % 2, "FLOAT.EXP", False, float=[fbits(x)]))
     for nm in INT1:
         for prof in (0, 1):
             for a in I32 + [rand_i32(rng) for _ in range(nrand)]:
